@@ -333,6 +333,31 @@ func checkT1(v *t1Vec, line int) *disagreement {
 			spec.Subrs = append(spec.Subrs, v.Glyphs.Toks[len(v.Glyphs.Toks)-1]) // a subroutine that calls itself / runs wild
 		}
 	}
+	if (v.Fam == "glyph" || v.Fam == "layout") && line%4 == 1 && len(spec.Subrs) > 4 {
+		// a sparse Subrs array: slot 4 is left unassigned, the font's own subroutines move up by one
+		// and every call of them is renumbered
+		sp := append([][]indep.Tok{}, spec.Subrs[:4]...)
+		sp = append(sp, nil)
+		sp = append(sp, spec.Subrs[4:]...)
+		renum := func(toks []indep.Tok) []indep.Tok {
+			out := append([]indep.Tok{}, toks...)
+			for i := 1; i < len(out); i++ {
+				if out[i].T == "c" && out[i].C == "callsubr" && out[i-1].T == "n" && out[i-1].V >= 4 {
+					out[i-1].V++
+				}
+			}
+			return out
+		}
+		for i := range sp {
+			if sp[i] != nil {
+				sp[i] = renum(sp[i])
+			}
+		}
+		for name, t := range spec.Toks {
+			spec.Toks[name] = renum(t)
+		}
+		spec.Subrs = sp
+	}
 	v.Lay.Lead = line / 3 // binary containers: every legal kind of first cipher byte
 	data, err := indep.WriteFont(spec, v.Lay)
 	lay := fmt.Sprintf("%s lenIV=%d names=%s long=%v enc=%s lead=%d", v.Lay.Cont, v.Lay.LenIV, v.Lay.Names, v.Lay.LongNum, v.Lay.Enc, v.Lay.Lead%11)
